@@ -13,6 +13,7 @@ CHECK_DEADLOCK FALSE
 
 
 DIRNAME = "teile"
+SELNAME = {"pub": "wert", "fn": "zeige", "const": "KONST", "type": "Kasten"}      # what a selective import names
 
 
 def mpath(t, indir):
@@ -33,7 +34,7 @@ def import_lines(imps, indir, marker=None):
         elif t["sel"] == "all":
             lines.append('Binde "%s" ein.' % mpath(t["t"], indir))
         else:
-            lines.append('Binde %s%d aus "%s" ein.' % ("wert" if t["sel"] == "pub" else "zeige", t["t"], mpath(t["t"], indir)))
+            lines.append('Binde %s%d aus "%s" ein.' % (SELNAME[t["sel"]], t["t"], mpath(t["t"], indir)))
     return lines
 
 
@@ -44,7 +45,10 @@ def module_src(k, imps, indir=()):
               "Die öffentliche Zahl wert%d ist hilf mir." % k, "Die Zahl geheim%d ist 100 plus %d." % (k, k),
               "Die öffentliche Funktion zeige%d gibt eine Zahl zurück, macht:" % k,
               "\tGib %s zurück." % " plus ".join(["wert%d" % k] + ["wert%d" % t["t"] for t in imps if t["t"] != k]),
-              "Und kann so benutzt werden:", '\t"zeige%d"' % k, "", 'Schreibe "TOP%d ".' % k]
+              "Und kann so benutzt werden:", '\t"zeige%d"' % k, "",
+              "Die öffentliche Konstante KONST%d ist %d." % (k, k),
+              "Wir nennen die öffentliche Kombination aus", "\tder öffentlichen Zahl inhalt mit Standardwert wert%d," % k, "einen Kasten%d, und erstellen sie so:" % k, '\t"ein Kasten%d"' % k, "",
+              'Schreibe "TOP%d ".' % k]
     return "\n".join(lines) + "\n"
 
 
@@ -57,13 +61,20 @@ def main_src(imps, probe=None, indir=()):
         if t["sel"] in ("all", "fn"):
             lines.append("Schreibe zeige%d." % t["t"])
             lines.append('Schreibe " ".')
+        if t["sel"] == "type":
+            lines.append("Schreibe (inhalt von (ein Kasten%d))." % t["t"])      # the default value reads the module's global
+            lines.append('Schreibe " ".')
+        if t["sel"] == "const":
+            lines.append("Schreibe KONST%d." % t["t"])
+            lines.append('Schreibe " ".')
     if probe:
         j, name = probe[0], probe[1]
         if name == "reexp":
             lines.insert(1, 'Binde wert%d aus "%s" ein.' % (probe[2], mpath(j, indir)))
             lines.append("Die Zahl probe ist wert%d." % probe[2])
         else:
-            lines.append("Die Zahl probe ist %s." % {"pub": "wert%d" % j, "fn": "zeige%d" % j, "priv": "geheim%d" % j}[name])
+            lines.append({"pub": "Die Zahl probe ist wert%d." % j, "fn": "Die Zahl probe ist zeige%d." % j, "priv": "Die Zahl probe ist geheim%d." % j,
+                          "const": "Die Zahl probe ist KONST%d." % j, "type": "Der Kasten%d probe ist ein Kasten%d." % (j, j)}[name])
     return "\n".join(lines) + "\n"
 
 
@@ -91,7 +102,8 @@ def graphs(tier, rng):
     for g in out:
         sels = [["all"] * len(g[0])]
         if g[0]:
-            sels.append([rng.choice(["all", "pub", "fn"]) for _ in g[0]])
+            sels.append([rng.choice(["all", "pub", "fn", "const", "type"]) for _ in g[0]])
+            sels.append([rng.choice(["const", "type"]) for _ in g[0]])
         for s in sels:
             res.append(dict(n=len(g), dir=[], imp=[[dict(t=t, sel=(s[k] if i == 0 else "all"), cont=False) for k, t in enumerate(imps)] for i, imps in enumerate(g)]))
     # directory imports: modules 2 and 3 live in teile/; "Binde alle Module aus" in the main module and / or in an imported module
@@ -156,7 +168,7 @@ def run(tier):
     for i in run_idx:
         g = gs[i]
         for j in range(1, g["n"]):
-            for name in ("pub", "fn", "priv"):
+            for name in ("pub", "fn", "priv", "const", "type"):
                 files = dict(files_of[i])
                 files["main.ddp"] = main_src(g["imp"][0], probe=(j, name), indir=g["dir"])
                 pj.append(dict(files=files, main="main.ddp"))
